@@ -1,0 +1,51 @@
+//go:build verif
+
+// Contracts for the verification machinery in /verif (comment-only; compiled only with -tags verif).
+
+package opqueue
+
+// ---- C16: the in-memory queue is FIFO; a failed batch returns to the head in its original order ----
+// Lock discipline: the mutex calls are trusted no-ops here (single atomic step per method); see DESIGN.md C16.
+//
+//@ extern (*sync.RWMutex).Lock
+//@ extern (*sync.RWMutex).Unlock
+//@ extern (*sync.RWMutex).RLock
+//@ extern (*sync.RWMutex).RUnlock
+//
+//@ spec qNonNil(q *MemQueue) bool { forall k int :: 0 <= k && k < len(q.items) ==> q.items[k] != nil }
+//
+//@ func (*MemQueue).Add
+//@   requires q != nil && data != nil && len(q.items) < 1152921504606846975
+//@   results n, err
+//@   ensures err == nil && len(q.items) == old(len(q.items)) + 1 && n == len(q.items)
+//@   ensures forall k int :: 0 <= k && k < old(len(q.items)) ==> q.items[k] == old(q.items[k])
+//@   ensures q.items[len(q.items)-1] != nil && q.items[len(q.items)-1].ProtocolVersion == protocolVersion && q.items[len(q.items)-1].UniqueSuffix == data.UniqueSuffix && q.items[len(q.items)-1].Type == data.Type && q.items[len(q.items)-1].OperationRequest == data.OperationRequest && q.items[len(q.items)-1].Namespace == data.Namespace
+//@   modifies *
+//
+//@ func (*MemQueue).Len
+//@   requires q != nil
+//@   ensures result == len(q.items)
+//
+//@ func (*MemQueue).Peek
+//@   requires q != nil && num < 1152921504606846975
+//@   results ops, err
+//@   ensures err == nil && len(ops) == cond(num < len(q.items), num, len(q.items)) && sameSlice(ops, q.items)
+//
+//@ func (*MemQueue).Remove
+//@   closure 1
+//@     requires q != nil
+//@     ensures result == len(q.items) && q.items == old(q.items)
+//@   end
+//@   closure 2
+//@     requires q != nil && len(items) + len(q.items) < 1152921504606846975
+//@     ensures len(q.items) == len(items) + old(len(q.items))
+//@     ensures forall k int :: 0 <= k && k < len(items) ==> q.items[k] == old(items[k])
+//@     ensures forall k int :: 0 <= k && k < old(len(q.items)) ==> q.items[len(items) + k] == old(q.items[k])
+//@     modifies *
+//@   end
+//@   requires q != nil && num < 1152921504606846975
+//@   results ops, ack, nack, err
+//@   ensures err == nil && len(ops) == cond(num < old(len(q.items)), num, old(len(q.items))) && sameSlice(ops, old(q.items))
+//@   ensures len(q.items) == old(len(q.items)) - len(ops)
+//@   ensures forall k int :: 0 <= k && k < len(q.items) ==> q.items[k] == old(q.items[len(ops) + k])
+//@   modifies q.items
